@@ -7,8 +7,11 @@ if ! git diff --quiet; then echo "seedtest: /repo has uncommitted changes"; exit
 git apply "$PATCH" || { echo "seedtest: patch does not apply"; exit 2; }
 cd /verif
 LOG="/verif/out/seedtest-$(basename $(dirname $PATCH))-$PROP.log"
+# the evidence file must keep describing a run on the UNCHANGED tree: save it, restore it afterwards
+EV="/verif/evidence/$PROP.json"; [ -f "$EV" ] && cp "$EV" "/tmp/seedtest_ev_$$.json"
 timeout 3000 bin/check "$PROP" "$TIER" > "$LOG" 2>&1
 RC=$?
+[ -f "/tmp/seedtest_ev_$$.json" ] && mv "/tmp/seedtest_ev_$$.json" "$EV"
 git -C /repo checkout -- .
 N=$(grep -c "^VIOLATION" "$LOG")
 echo "SEEDTEST $PATCH $PROP exit=$RC violations=$N"
